@@ -344,7 +344,19 @@ def phaseC_worker(args):
         stats = {"accepted": 0, "rejected_progress": 0, "rejected_at0": 0, "cases": 0, "nontrivial": {}}
         samples = []
         case_facts = []
+        ind = {}
+        indp = os.path.join(rundir, "u%d.ind.json" % uid)
+        if os.path.exists(indp):
+            with open(indp) as f:
+                ind = json.load(f)
         for (cid, rule, inp, budget) in u["cases"]:
+            if cid in ind:
+                counters["indented_traces_checked"] = counters.get("indented_traces_checked", 0) + 1
+                counters["indented_trace_entries"] = counters.get("indented_trace_entries", 0) + ind[cid]["entries"]
+                if ind[cid]["problem"]:
+                    findings.append({"uid": uid, "case": cid, "rule": rule, "input": inp, "kind": "trace_balance",
+                                     "msg": "the log written by IndentedTracer is not properly nested: " + ind[cid]["problem"], "expected": "every entry closed by one exit at its level",
+                                     "observed": ind[cid]["problem"]})
             o = obs.get(cid)
             if o is None:
                 counters["harness_missing"] = counters.get("harness_missing", 0) + 1
@@ -384,6 +396,93 @@ def phaseC_worker(args):
                     "features": {"memo": ui.has_memo, "lr": ui.has_lr, "userfn": ui.has_userfn,
                                  "ctx": u["grammar"].user_ctx}})
     return out
+
+
+IND_ENTRY = None
+
+
+def indented_trace_problem(text):
+    """the log written by the library's IndentedTracer for one parse: every `Name?` entry at level k must be closed by exactly
+    one `Ok` / `Error:` line at level k+1, in stack order, and nothing may stay open.  Returns (entries, problem or None)"""
+    import re
+    global IND_ENTRY
+    if IND_ENTRY is None:
+        IND_ENTRY = (re.compile(r"^((?: {4})*)([A-Za-z_][A-Za-z0-9_#]*)\?$"), re.compile(r"^((?: {4})*)(Ok$|Error: )"), re.compile(r"\x1b\[[0-9;]*m"))
+    ent, ext, ansi = IND_ENTRY
+    # a user function may start another traced parse (its tracer starts at level 0 again): contexts nest
+    ctxs = [[]]
+    n = 0
+    for raw in text.split("\n"):
+        line = ansi.sub("", raw)
+        m = ent.match(line)
+        if m:
+            lvl = len(m.group(1)) // 4
+            stack = ctxs[-1]
+            if lvl == 0 and stack:
+                ctxs.append([])
+                stack = ctxs[-1]
+            if lvl != len(stack):
+                return n, "entry of %s written at level %d while %d entries are open (%s)" % (m.group(2), lvl, len(stack), " > ".join(stack[-4:]))
+            stack.append(m.group(2))
+            n += 1
+            continue
+        m = ext.match(line)
+        if m:
+            lvl = len(m.group(1)) // 4
+            stack = ctxs[-1]
+            if not stack:
+                return n, "an exit line at level %d without an open entry" % lvl
+            if lvl != len(stack):
+                return n, "exit written at level %d, the innermost open entry %s is at level %d" % (lvl, stack[-1], len(stack) - 1)
+            stack.pop()
+            if not stack and len(ctxs) > 1:
+                ctxs.pop()
+    open_ = [x for st in ctxs for x in st]
+    if open_:
+        return n, "%d entries never got an exit: %s" % (len(open_), " > ".join(open_[:6]))
+    return n, None
+
+
+def capture_indented(rundir, name, binpath, us, per_unit=6, maxbytes=80):
+    """a sample of cases is parsed once more with the library's own IndentedTracer and stderr kept"""
+    import subprocess
+    cases_path = os.path.join(rundir, name + ".ind.tsv")
+    sel = {}
+    with open(cases_path, "w") as f:
+        for u in us:
+            with open(os.path.join(rundir, "u%d.pkl" % u["gidx"]), "rb") as pf:
+                uu = pickle.load(pf)
+            if not u["exports"]:
+                continue
+            k = 0
+            for (cid, rule, inp, budget) in uu["cases"]:
+                if len(inp.encode("utf-8")) <= maxbytes and inp:
+                    f.write("%s\t%d\t%s\t%d\t%d\t%s\n" % (cid, u["gidx"], rule, 4, budget, build.hexs(inp)))
+                    sel[cid] = u["gidx"]
+                    k += 1
+                    if k >= per_unit:
+                        break
+    if not sel:
+        return
+    errp = os.path.join(rundir, name + ".ind.stderr")
+    env = dict(build.BASE_ENV, NO_COLOR="1")
+    with open(errp, "wb") as ef:
+        subprocess.run([binpath, cases_path, os.path.join(rundir, name + ".ind.log")], stdout=subprocess.DEVNULL, stderr=ef, timeout=600, env=env)
+    with open(errp, encoding="utf-8", errors="replace") as f:
+        chunks = f.read().split("@@CASE ")
+    per = {}
+    for ch in chunks[1:]:
+        cid, _, body = ch.partition("\n")
+        cid = cid.strip()
+        if cid in sel:
+            n, prob = indented_trace_problem(body)
+            per.setdefault(sel[cid], {})[cid] = {"entries": n, "problem": prob}
+    for uid, v in per.items():
+        with open(os.path.join(rundir, "u%d.ind.json" % uid), "w") as f:
+            json.dump(v, f)
+    for pth in (errp, cases_path, os.path.join(rundir, name + ".ind.log")):
+        if os.path.exists(pth):
+            os.remove(pth)
 
 
 def fixrec(r):
@@ -554,6 +653,12 @@ def run_profile(profile, seed, tier, opts=None, flavor="dev-hooks", modes=7, sca
             with open(os.path.join(rundir, "u%d.log.json" % uid), "w") as f:
                 json.dump(v, f)
         os.remove(logp)
+        if opts.get("capture_indented"):
+            try:
+                capture_indented(rundir, name, bins[name], us)
+            except Exception as e:  # the sample is extra evidence; its absence is reported as "not observed"
+                with open(os.path.join(rundir, name + ".ind.err"), "w") as f:
+                    f.write(repr(e))
         os.remove(bins[name])
         return cr, to, n
 
